@@ -28,6 +28,7 @@ class Sampler:
         self.mode = "free"  # free | steer
         self.rng = None  # harness rng for steering
         self.script = None  # optional list of forced indices (consumed in order)
+        self.want = None  # optional list of [value, n_outcomes] wishes (twin runs): first fitting one is consumed
         self.all_events = []
         self.key_events = []
 
@@ -43,6 +44,16 @@ class Sampler:
 SAMPLER = Sampler()
 _orig_choice = jax.random.choice
 _installed = False
+
+
+def _key_bytes(k):
+    try:
+        return np.asarray(k).tobytes()
+    except Exception:
+        try:
+            return np.asarray(jax.random.key_data(k)).tobytes()
+        except Exception:
+            return None
 
 
 def _caller():
@@ -67,13 +78,7 @@ def _choice(key, a, shape=(), replace=True, p=None, axis=0, **kw):
         ev["p"] = None if p is None else np.asarray(p, dtype=float).ravel().copy()
     except Exception:
         ev["p"] = None
-    try:
-        ev["key"] = np.asarray(jax.random.key_data(key) if hasattr(jax.random, "key_data") and jax.dtypes.issubdtype(getattr(key, "dtype", None), jax.dtypes.prng_key) else key).tobytes()
-    except Exception:
-        try:
-            ev["key"] = np.asarray(key).tobytes()
-        except Exception:
-            ev["key"] = None
+    ev["key"] = _key_bytes(key)
     forced = None
     if S.mode == "steer" and ev["a"] is not None and shape == ():
         n = len(ev["a"])
@@ -81,6 +86,14 @@ def _choice(key, a, shape=(), replace=True, p=None, axis=0, **kw):
             forced = S.script.pop(0)
             if forced is not None and not (0 <= forced < n):
                 forced = None
+        if forced is None and S.want:
+            pv = ev["p"]
+            okp = pv is not None and len(pv) == n and np.all(np.isfinite(pv)) and pv.sum() > 0
+            for wi, (val, dim) in enumerate(S.want):
+                if dim == n and 0 <= val < n and (not okp or pv[val] / pv.sum() > 1e-9):
+                    forced = int(val)
+                    S.want.pop(wi)
+                    break
         if forced is None and S.rng is not None:
             pv = ev["p"]
             if pv is not None and len(pv) == n and np.all(np.isfinite(pv)) and pv.sum() > 0 and np.all(pv >= -1e-12):
@@ -106,13 +119,6 @@ def _choice(key, a, shape=(), replace=True, p=None, axis=0, **kw):
 
 
 _orig_random_key = Config.__dict__["random_key"]
-
-
-def _key_bytes(k):
-    try:
-        return np.asarray(k).tobytes()
-    except Exception:
-        return None
 
 
 def _random_key_get(self):
